@@ -370,7 +370,7 @@ class Batch:
             s = vals[0].strip()
             if s not in ("[]", "nil"):
                 import re
-                for a, b in re.findall(r"\((\d+)\s*,\s*(\d+)\)", s.replace("%nat", "")):
+                for a, b in re.findall(r"\((\d+)\s*,\s*(\d+)\)", re.sub(r"%\w+", "", s)):
                     codes[lo + int(a)] = int(b)
         return codes
 
@@ -403,8 +403,16 @@ COMMUTE_OR_KEY = "C06:commute:or-value-without-tag-var:ValueError"
 OUT_KEY = "C06:pattern-node-with-more-outputs-than-graph-node:match-reported"
 
 
+ITER_KEY = "C06:several-output-nodes-without-op-identifier:shared-node-iterator:match-missed"
+FULL = 65535
+# bit k of the mask <-> flags (fresh_iter, out_fail, keep_vb, keep_nb) = bits 3..0 of k
+M_OUT0 = sum(1 << k for k in range(16) if not k & 4)        # settings with out_fail = false
+M_MERGE0 = sum(1 << k for k in range(16) if (k & 3) != 3)   # settings in which merge drops something
+M_ITER0 = sum(1 << k for k in range(16) if not k & 8)       # settings with the shared iterator
+
+
 def decide(ctx, batch, codes):
-    """Apply the decision rules to every case; returns the index (0..7) of the flag setting the implementation exhibits."""
+    """Apply the decision rules to every case; returns the index (0..15) of the flag setting the implementation exhibits."""
     meta = batch.meta
     generic = {}
 
@@ -415,27 +423,30 @@ def decide(ctx, batch, codes):
             seen.add(key)
             ctx.violation(key, what, replay)
 
-    flag_mask = 255
+    flag_mask = FULL
     for i, m in enumerate(meta):
-        k = codes.get(i, 255) & 255
+        k = codes.get(i, FULL) & FULL
         if k:
             flag_mask &= k
     if flag_mask == 0:
-        ctx.tie_broken("correspondence", "merge-flags", "no single setting of (out_fail, keep_vb, keep_nb) agrees with the implementation on all cases")
-        flag_mask = 255
-    impl_bit = 128 if flag_mask & 128 else (flag_mask & -flag_mask)
+        ctx.tie_broken("correspondence", "merge-flags", "no single setting of (fresh_iter, out_fail, keep_vb, keep_nb) agrees with the implementation on all cases")
+        flag_mask = FULL
+    # among the settings that explain every observation, the one with the most repairs
+    best = max((k for k in range(16) if flag_mask >> k & 1), key=lambda k: (bin(k).count("1"), k))
+    impl_bit = 1 << best
     for i, m in enumerate(meta):
-        code = codes.get(i, 255)
-        mask = code & 255
+        code = codes.get(i, FULL)
+        mask = code & FULL
         agree_impl = bool(mask & impl_bit)
-        sens_out = mask != 0 and (mask & 0xF0) == 0          # reproduced only when the output-count failure is not recorded
-        sens_merge = mask != 0 and (mask & 0x88) == 0        # reproduced only when merge drops some bindings
+        sens_out = mask != 0 and (mask & ~M_OUT0 & FULL) == 0       # reproduced only when the output-count failure is not recorded
+        sens_merge = mask != 0 and (mask & ~M_MERGE0 & FULL) == 0   # reproduced only when merge drops some bindings
+        sens_iter = mask != 0 and (mask & ~M_ITER0 & FULL) == 0     # reproduced only with the shared node iterator
         fk = "+".join(m["features"]) or "plain"
         v = m["verdict"]
         m["mask"] = mask
-        if code & 256:
+        if code & 65536:
             ctx.tie_broken("correspondence", "output-nodes", f"model output_nodes differ from GraphPattern.output_nodes: {json.dumps(m['p'])}")
-        if code & 512 and v is None:
+        if code & 131072 and v is None:
             ctx.tie_broken("correspondence", "spec-python-vs-coq", f"instance found by enumeration is rejected by instanceb: {json.dumps(_replay(m), default=str)[:1500]}")
         if v == "unsound":
             if sens_out:
@@ -449,7 +460,10 @@ def decide(ctx, batch, codes):
                 violation("unsound", f"C06:non-instance-reported:{fk}", "the matcher reports a match whose bindings/nodes/outputs are not an instance of the pattern",
                           _replay(m))
         elif v == "missed":
-            if sens_merge:
+            if sens_iter:
+                ctx.violation(ITER_KEY, "an instance is not matched: with several output nodes, the output nodes without op identifier (prefix "
+                              "patterns; every node of a commuted copy) share one node iterator, which is drained for the first of them", _replay(m))
+            elif sens_merge:
                 ctx.violation(F16_KEY_MISSED, "an instance is not matched: PartialMatchResult.merge drops bindings of a successful OR "
                               "alternative", _replay(m))
             elif m["or"] and agree_impl:
@@ -504,7 +518,7 @@ def run(ctx):
     t2 = time.time()
     ctx.cover(seconds_matching_and_spec=round(t1 - t0, 1), seconds_model_in_coq=round(t2 - t1, 1))
     k = decide(ctx, batch, codes)
-    keeps = (bool(k & 2), bool(k & 1), bool(k & 4))
+    keeps = (bool(k & 2), bool(k & 1), bool(k & 4), bool(k & 8))
     ctx.obligation("correspondence: real matcher = Match/Matcher.v `run` (bindings, node order, outputs) on every case, for one setting of the merge flags",
                    not any(t["kind"] == "correspondence" for t in ctx.ties))
     # C06_match_sound is proved for the repaired setting only.  When the implementation exhibits another setting, either a
@@ -523,7 +537,8 @@ def run(ctx):
         ctx.tie_broken("proof", "C06_match_sound", "the implementation behaves like the model with " + "; ".join(uncovered) +
                        ", for which soundness is not proved, and no non-instance was found in this run")
     ctx.cover(pattern_host_pairs=n, patterns_refused_by_api=refused, merge_keeps_value_bindings=keeps[0], merge_keeps_node_bindings=keeps[1],
-              output_count_failure_recorded=keeps[2], match_sound_applies_to_implementation=all(keeps), **batch.stats)
+              output_count_failure_recorded=keeps[2], own_node_list_per_output_node=keeps[3],
+              match_sound_applies_to_implementation=all(keeps[:3]), **batch.stats)
     for m in batch.meta[:: max(1, len(batch.meta) // 5)][:5]:
         ctx.sample({"pattern": m["p"], "host": m["h"], "root": m["root"], "removable": m["rm"], "observed": m["obs"][0]})
     if ctx.tier == "thorough":
